@@ -280,7 +280,7 @@ def run(ctx):
     res = Result("model_checking")
     res.rule = ("E1 flows (first issuance + one renewal) for every hook list of <=2 (quick) / <=3 (thorough) top-level entries from a catalogue of "
                 "8 hooks (type palette incl. multi-typed) and 4 groups (one nested, one naming a hook twice), x allow_failure {unset, true}, and for each: the "
-                "default run plus every single hook invocation exiting 1 (bound 1 over hook choice points); environment variables colliding at identifier / "
+                "default run plus every single hook invocation exiting 1 (bound 1 over hook choice points); pre-create hooks that create the file themselves (each in turn, and all); environment variables colliding at identifier / "
                 "certificate / global / daemon level; stdin_str / stdin file / stdout templates; all three challenge types. Oracle = reference trace predictor.")
     catalogue = list(PALETTE) + list(GROUPS)
     maxn = 2 if ctx.quick else 3
@@ -329,7 +329,11 @@ def run(ctx):
     r = make_req(["h0", "h2", "g1", "h3"], attempts=1)
     r["hook_hold_ms"] = 6
     extra.append(r)
-    bounds = {"lists": len(lists), "base_scenarios": len(bases) + len(extra)}
+    # a pre-create hook that itself creates the file it is called for (it prepares the file, e.g. to set an ACL): the write is still the
+    # write of a *new* file, so it is closed by the post-create hooks. h4 = {pre-create, post-edit}, h7 = {post-create, ...}: the two
+    # bracketings give different traces. Every h4 invocation in turn, and all of them together, create the file.
+    touch_bases = [make_req(["h4", "h7"], acct_hooks=("h4", "h7")), make_req(["h7", "h4", "h5"], acct_hooks=("g4", "h4"), allow_failure=True)]
+    bounds = {"lists": len(lists), "base_scenarios": len(bases) + len(extra) + len(touch_bases)}
     alpha = {"hook": ["exit:1"]}
     total_fail_points = 0
 
@@ -368,6 +372,24 @@ def run(ctx):
                                 nxt.append((b, [{"idx": cp["idx"], "kind": "hook", "answer": ans}]))
             total_fail_points += len(nxt) if depth == 0 else 0
             frontier = nxt
+    n_touch = 0
+    treqs = []
+    for b, o in zip(touch_bases, e1.run_all(ctx.pool, touch_bases, 120.0)):
+        e1.check_obs(o)
+        on_exec(b, o, [])
+        h4s = [cp["idx"] for cp in o.get("cps", []) if cp["kind"] == "hook" and (cp.get("tag") or (cp.get("info") or {}).get("tag")) == "h4"]
+        if not h4s:
+            raise RuntimeError("C10 touch family: no h4 invocation found among the choice points")
+        for sel in [[i] for i in h4s] + [h4s]:
+            q = dict(b)
+            q["script"] = [{"idx": i, "kind": "hook", "answer": "touch|exit:0"} for i in sel]
+            treqs.append(q)
+    for q, o in zip(treqs, e1.run_all(ctx.pool, treqs, 120.0)):
+        e1.check_obs(o)
+        e1.check_applied(q, o)
+        on_exec(q, o, q["script"])
+        n_touch += 1
+    bounds["pre_create_hook_creates_the_file"] = n_touch
     bounds["single_hook_failures"] = total_fail_points
     res.extra["bound_completed"] = bounds
     res.assumptions = ["the flow model behind the predictor: account file write at registration, per authorization challenge hooks -> POST -> poll -> clean hooks, key file write, certificate file write, post-operation hooks; a failing step skips to the post-operation hooks",
